@@ -3,6 +3,7 @@ package main
 import (
 	"encoding/json"
 	"fmt"
+	"math/rand"
 	"os"
 	"os/exec"
 	"path/filepath"
@@ -71,6 +72,23 @@ func main() {
 		os.Exit(runCheck(os.Args[2], os.Args[3]))
 	case "replay":
 		os.Exit(runReplay(os.Args[2]))
+	case "gen":
+		// gen <prop> <outdir> <ntraces>: write one chunk of random traces (profiling aid)
+		os.MkdirAll(os.Args[3], 0o777)
+		goit, err := buildGoit(os.Args[3], false)
+		if err != nil {
+			fmt.Fprintln(os.Stderr, err)
+			os.Exit(2)
+		}
+		n, _ := strconv.Atoi(os.Args[4])
+		c := NewChunk(os.Args[3])
+		jobs := randomJobs(os.Args[2], n, n, 1.0)
+		jobs[0].Make(goit, c, rand.New(rand.NewSource(seed())))
+		writeNdjson(filepath.Join(os.Args[3], "trace.ndjson"), c.Lines)
+		writeJson(filepath.Join(os.Args[3], "tables.json"), c.T.Dump())
+		linkSpecs(os.Args[3])
+		fmt.Println("lines", len(c.Lines))
+		os.Exit(0)
 	case "demo":
 		os.Exit(runDemo(os.Args[2], os.Args[3]))
 	default:
